@@ -43,28 +43,17 @@ func TestVerifC03PolicyMatchOrder(t *testing.T) {
 		stats := &c03CheckStats{}
 		checks := 0
 
-		truncated := false
-		// flushAndCheck returns false when the case was cut short at a known finding.
-		flushAndCheck := func() bool {
-			if h.stalePendingAtFlush(g.inSync) {
-				stats.hit("known:" + c03SigStalePending)
-				if ev.Known(c03SigStalePending) {
-					rec.Excluded(c03SigStalePending)
-					truncated = true
-					return false
-				}
-			}
+		flushAndCheck := func() {
 			g.flush()
 			h.log = append(h.log, "flush")
 			h.kinds = append(h.kinds, "F")
 			if !g.inSync {
-				return true
+				return
 			}
 			checks++
 			if msg := c03CheckFold(t, h.valid, g.fold, stats); msg != "" {
 				t.Fatalf("C03 violated after flush #%d:\n%s\ndatastore now:\n%shistory:\n%s", checks, msg, h.valid.describe(), h.history())
 			}
-			return true
 		}
 		inSync := func() {
 			if !g.inSync {
@@ -94,7 +83,7 @@ func TestVerifC03PolicyMatchOrder(t *testing.T) {
 			flushAndCheck()
 		}
 
-		for i := 1; i <= nSteps && !truncated; i++ {
+		for i := 1; i <= nSteps; i++ {
 			n := rapid.IntRange(1, 3).Draw(t, "batchSize")
 			as, _ := h.genBatch(n, c03Weights, 0)
 			g.send(as)
@@ -105,10 +94,8 @@ func TestVerifC03PolicyMatchOrder(t *testing.T) {
 				flushAndCheck()
 			}
 		}
-		if !truncated {
-			inSync()
-			flushAndCheck()
-		}
+		inSync()
+		flushAndCheck()
 
 		nontrivial := stats.classes["order-tie"] || stats.classes["label-override"] || stats.classes["nil-tier-order"]
 		classes := make([]string, 0, len(stats.classes))
